@@ -38,8 +38,9 @@ RULE = ("LastChange documents rendered from an abstract document (0..3 instances
         "RF, '', master}, prefixed and unprefixed names, attribute order, quoting, character references, comments, "
         "whitespace, XML declaration naming utf-8/iso-8859-1/utf-16/us-ascii/windows-1252/unknown encodings) plus byte-level mutations of rendered documents (truncation, deleted/duplicated "
         "characters, swapped tags, bad entities and character references, control characters, junk before/after), each "
-        "delivered through service.notify_changed_state_variables -> DmrDevice._on_event (one third as a GENA NOTIFY through "
-        "UpnpEventHandler.handle_notify after a real async_subscribe_services). non-trivial = instance 0 has a "
+        "delivered through service.notify_changed_state_variables -> DmrDevice._on_event (every rendered document and the empty value as a GENA "
+        "NOTIFY through UpnpEventHandler.handle_notify after a real async_subscribe_services; damaged text, which cannot "
+        "be embedded in a NOTIFY body, directly). non-trivial = instance 0 has a "
         "master entry naming a service variable (documents) / expat delivered at least one element before failing "
         "(mutations); distinct = distinct canonical driver text")
 EXHAUSTIVE = {"quick": False, "thorough": False}
@@ -182,7 +183,7 @@ def gen_doc(rng: random.Random, svc_key: str) -> Dict[str, Any]:
     root = rng.choice([[], [["xmlns", "urn:schemas-upnp-org:metadata-1-0/RCS/"]],
                        [["xmlns", "urn:schemas-upnp-org:metadata-1-0/AVT/"], ["xmlns:rcs", "urn:x"], ["xmlns:avt", "urn:y"]]])
     return {"kind": "doc", "svc": svc_key, "root": root, "ops": insts, "style": rng.randrange(0, 2**30),
-            "via": rng.choice(["direct", "direct", "notify"])}
+            "via": "notify"}
 
 
 def esc(rng: random.Random, s: str, quote: str) -> str:
@@ -333,7 +334,7 @@ def run_value(cid: str, recipe: Dict[str, Any], text: Optional[str], doc: Option
     e["tee"]["events"] = []
     raised = "no"
     try:
-        if recipe.get("via") == "notify":
+        if recipe.get("via", "notify" if recipe["kind"] in ("doc", "empty") else "direct") == "notify":
             # a GENA NOTIFY through UpnpEventHandler.handle_notify (the value travels escaped inside the propertyset)
             from xml.sax.saxutils import escape
             body = ('<?xml version="1.0"?><e:propertyset xmlns:e="urn:schemas-upnp-org:event-1-0"><e:property>'
